@@ -1277,6 +1277,31 @@ func genC17(g *G, sc *Scenario, tier string, seed uint64) {
 		spec = map[string]any{"killAtSink": g.Range(1, n-1)}
 		cfg["batchSize"] = 1
 	}
+	if !killed && !big && !withRerun && jobType == "incremental" && g.P(0.2) {
+		// a second trigger of the same job type (on change of the source) with its own log handler: each trigger's runs
+		// report to, and stop at the limit of, their own handler. The cron trigger fires first (its limit is the cell's),
+		// then new entities arrive and the onchange trigger fires
+		m2 := g.Range(1, 2)
+		trs := cfg["triggers"].([]any)
+		cfg["triggers"] = append(trs, map[string]any{"triggerType": "onchange", "jobType": "incremental", "monitoredDataset": "srcA",
+			"onError": []any{map[string]any{"errorHandler": "log", "maxItems": m2}}})
+		sc.Ops = append(sc.Ops, Op{K: "batch", DS: "srcA", Ents: ents})
+		sc.Ops = append(sc.Ops, Op{K: "tick", S: "job1", M: spec})
+		var ents2 []Ent
+		var rej2 []any
+		for i := 0; i < 4; i++ {
+			id := fmt.Sprintf("%sy%03d", MkE, i)
+			ents2 = append(ents2, Ent{"id": id, "props": map[string]any{MkS + "n": float64(i)}, "refs": map[string]any{}})
+			if i != 1 {
+				rej2 = append(rej2, id)
+			}
+		}
+		cfg["batchSize"] = 4
+		sc.Ops = append(sc.Ops, Op{K: "batch", DS: "srcA", Ents: ents2})
+		sc.Ops = append(sc.Ops, Op{K: "tick", S: "job1", M: map[string]any{"trigger": 1, "event": true, "rejectIds": rej2}})
+		sc.Note = fmt.Sprintf("cell n=%d mask=%b maxItems=%d round=%d two-triggers", n, mask, maxItems, round)
+		return
+	}
 	sc.Ops = append(sc.Ops, Op{K: "batch", DS: "srcA", Ents: ents})
 	sc.Ops = append(sc.Ops, Op{K: "tick", S: "job1", M: spec})
 	if !killed && g.P(0.3) {
